@@ -115,7 +115,7 @@ def run(repo, res):
     res.rule("R24.3", "the explicit sample mask and the size_biased flag reach the kernel unchanged; the default mask is built from ts.samples()")
     res.rule("R24.4", "kernel tallies: the edge credited is looked up from the mutation's own node, increments are guarded by edge != NULL, the weight is the sample count iff size_biased")
     res.rule("R24.5", "no id that may be tskit.NULL (a mutation's edge, a node's individual, entries of NULL-initialised tables) is used as an array index without a dominating NULL test: numpy would silently tally it on the last row")
-    nullidx.run(repo, res, "R24.5")
+    nullidx.run(repo, res, "R24.5", floor=6, scope=["rescaling", "phasing", "variational", "util.mutation_span_array", "discrete.Likelihoods.get_mut_edges"])
     from . import edgesweep
 
     res.rule("R24.6", "set/reset pairing of the incremental tree sweeps: every per-node table the edge-insertion loop sets is reset to NULL by the edge-removal loop, and every accumulator incremented on insertion is decremented on removal")
@@ -216,7 +216,7 @@ def run(repo, res):
     res.require(okme, "R24.4", "_count_mutations records the credited edge per mutation", "mutations_edge store is not `mutations_edge[m] = e` under the NULL guard", loc(kernel))
 
 
-VARIANTS = [dict(v, rule="R24.5") for v in nullidx.VARIANTS] + [dict(v, rule="R24.6") for v in __import__("sa.rules.edgesweep", fromlist=["VARIANTS"]).VARIANTS] + [
+VARIANTS = [dict(v, rule="R24.5") for v in nullidx.VARIANTS if v["name"] != "root-parent-unguarded"] + [dict(v, rule="R24.6") for v in __import__("sa.rules.edgesweep", fromlist=["VARIANTS"]).VARIANTS] + [
     dict(name="assert-ne", mod="rescaling", expect="fire", rule="R24.1",
          old="        assert node_is_sample.size == ts.num_nodes", new="        assert node_is_sample.size != ts.num_nodes"),
     dict(name="default-sized-by-samples", mod="rescaling", expect="fire", rule="R24.1",
